@@ -135,4 +135,135 @@ def Sys.run : Sys → List Act → Option Sys
     | none => none
     | some s' => Sys.run s' as
 
+/-! ### One function per Go function (extension "cluster", 2026-09-30)
+
+The target of the tie by translation (`Gen/FactsC18IR.lean`, `Proofs/AdminAPIIR.lean`): the go/ast
+translator regenerates a definition from the current body of every function below and
+`<fn>_regenerated_from_source` proves it equal to the hand-written one for all inputs;
+`Proofs/AdminAPIIR.lean` proves that the handler functions compose to `apply` / `micro` / `exec`.
+
+Environment (oracles): `readObjectSpec` = (`sp`, `rdErr`); an etcd round trip either succeeds or
+fails (`getErr` / `putErr` / `delErr`: the Go code then calls `ClusterPanic`, result `none` = the
+handler died with a panic, answered 5xx by the recover middleware, state unknown). Values are kept as
+what they denote: the version key holds the number its decimal rendering denotes
+(`strconv.ParseInt (fmt.Sprintf "%d" n) = n`; an absent key and 0 are identified, as in `_getVersion`),
+an object key holds the object `NewSpec` rebuilds from its YAML text. -/
+
+/-- What `readObjectSpec` returns on success. -/
+structure Spec where
+  name : String
+  obj : Obj
+deriving Repr, DecidableEq
+
+/-- `http.ResponseWriter` as far as it is observed: the status line is fixed by the first
+`WriteHeader` (200 when the handler never calls it), and a header set after `WriteHeader` is
+not sent. -/
+structure RW where
+  wrote : Bool
+  status : Nat
+  ver : Option Nat    -- `X-Config-Version` among the headers that are sent
+deriving Repr, DecidableEq
+
+def RW.init : RW := ⟨false, 200, none⟩
+def RW.writeHeader (w : RW) (code : Nat) : RW := if w.wrote then w else { w with wrote := true, status := code }
+def configVersionKey : String := "X-Config-Version"
+/-- `w.Header().Set(k, fmt.Sprintf("%d", v))` -/
+def RW.setHdr (w : RW) (k : String) (v : Nat) : RW :=
+  if w.wrote then w else if k == configVersionKey then { w with ver := some v } else w
+def RW.resp (w : RW) : Resp := ⟨w.status, w.ver⟩
+
+/-- etcd keys used by the handlers (`s.cluster.Layout()`). -/
+inductive Key
+  | version                 -- `Layout().ConfigVersion()`
+  | object (name : String)  -- `Layout().ConfigObjectKey(name)`
+deriving Repr, DecidableEq
+
+/-- `s.cluster.Get(key)` on the version key: `nil` when absent (identified with 0). -/
+def Etcd.getVer (e : Etcd) : Key → Option Nat
+  | .version => if e.version = 0 then none else some e.version
+  | .object _ => none
+def Etcd.getObj (e : Etcd) : Key → Option Obj
+  | .version => none
+  | .object n => e.store.get n
+def Etcd.putVer (e : Etcd) : Key → Nat → Etcd
+  | .version, v => { e with version := v }
+  | .object _, _ => e
+def Etcd.putObj (e : Etcd) : Key → Obj → Etcd
+  | .version, _ => e
+  | .object n, o => { e with store := e.store.put n o }
+def Etcd.delKey (e : Etcd) : Key → Etcd
+  | .version => { e with version := 0 }
+  | .object n => { e with store := e.store.del n }
+/-- `strconv.ParseInt` of a decimal rendering, `supervisor.NewSpec` of a stored YAML text: the value, no error. -/
+def parseDec (v : Nat) : Nat × Bool := (v, false)
+def newSpec (o : Obj) : Obj × Bool := (o, false)
+def kindOf : Option Obj → String
+  | some o => o.kind
+  | none => ""
+
+/-- `_getVersion` -/
+def getVersion (e : Etcd) (getErr : Bool) : Option Nat := if getErr then none else some e.version
+/-- `_plusOneVersion`: (etcd afterwards, returned version) -/
+def plusOneVersion (e : Etcd) (getErr putErr : Bool) : Option (Etcd × Nat) :=
+  if getErr || putErr then none else some ({ e with version := e.version + 1 }, e.version + 1)
+/-- `_getObject` -/
+def getObject (e : Etcd) (name : String) (getErr : Bool) : Option (Option Obj) :=
+  if getErr then none else some (e.store.get name)
+/-- `_putObject` -/
+def putObject (e : Etcd) (sp : Spec) (putErr : Bool) : Option Etcd :=
+  if putErr then none else some { e with store := e.store.put sp.name sp.obj }
+/-- `_deleteObject` -/
+def deleteObjectKey (e : Etcd) (name : String) (delErr : Bool) : Option Etcd :=
+  if delErr then none else some { e with store := e.store.del name }
+/-- `upgradeConfigVersion` (round trips succeed) -/
+def upgradeConfigVersion (e : Etcd) (w : RW) : Etcd × RW :=
+  ({ e with version := e.version + 1 }, w.setHdr configVersionKey (e.version + 1))
+
+/-- Result of a handler: etcd, the response writer, whether the cluster lock is still held when the
+handler returns, and whether an etcd access happened while the lock was not held. -/
+structure HOut where
+  etcd : Etcd
+  rw : RW
+  locked : Bool
+  unlockedAccess : Bool
+deriving Repr, DecidableEq
+
+/-- `createObject` (round trips succeed) -/
+def createObject (e : Etcd) (sp : Spec) (rdErr : Bool) : HOut :=
+  if rdErr then ⟨e, RW.init.writeHeader 400, false, false⟩
+  else match e.store.get sp.name with
+    | some _ => ⟨e, RW.init.writeHeader 409, false, false⟩
+    | none =>
+      let u := upgradeConfigVersion { e with store := e.store.put sp.name sp.obj } RW.init
+      ⟨u.1, u.2.writeHeader 201, false, false⟩
+
+/-- `updateObject` -/
+def updateObject (e : Etcd) (sp : Spec) (rdErr : Bool) : HOut :=
+  if rdErr then ⟨e, RW.init.writeHeader 400, false, false⟩
+  else match e.store.get sp.name with
+    | none => ⟨e, RW.init.writeHeader 404, false, false⟩
+    | some old =>
+      if old.kind != sp.obj.kind then ⟨e, RW.init.writeHeader 400, false, false⟩
+      else
+        let u := upgradeConfigVersion { e with store := e.store.put sp.name sp.obj } RW.init
+        ⟨u.1, u.2, false, false⟩
+
+/-- `deleteObject` -/
+def deleteObject (e : Etcd) (name : String) : HOut :=
+  match e.store.get name with
+  | none => ⟨e, RW.init.writeHeader 404, false, false⟩
+  | some _ =>
+    let u := upgradeConfigVersion { e with store := e.store.del name } RW.init
+    ⟨u.1, u.2, false, false⟩
+
+/-- `Server.Lock` / `Server.Unlock`: `none` = `ClusterPanic` (503), otherwise the lock flag afterwards. -/
+def serverLock (gmErr lkErr : Bool) : Option Bool := if gmErr || lkErr then none else some true
+def serverUnlock (gmErr ulErr : Bool) : Option Bool := if gmErr || ulErr then none else some false
+
+/-- The handler a request is routed to (`objectAPIEntries`), body successfully read. -/
+def handle (e : Etcd) : Req → HOut
+  | .create n o => createObject e ⟨n, o⟩ false
+  | .update n o => updateObject e ⟨n, o⟩ false
+  | .delete n => deleteObject e n
+
 end EgVerif.AdminAPI
